@@ -1,5 +1,247 @@
-import ZodbModel.Repozo
+/-
+  C18 — repozo recover reproduces the backed-up data file byte for byte.
+
+  Property theorems only (helper lemmas live in `Proofs/Repozo*.lean`).  The model
+  (`ZodbModel/Repozo.lean`) follows `src/ZODB/scripts/repozo.py` function by function.  A system
+  state `St` is a live source (`committed ++ tail`, `tail` = a transaction in progress), the
+  repository, and a ghost history `hist` = (date, committed bytes of the source at that date) of
+  every backup run that wrote a file, newest first, never pruned.
+
+  `Reachable` (Proofs/RepozoSpec.lean) is: any initial source; the source may change ARBITRARILY
+  between backups (appending complete transactions, replacement by a pack, a tail appearing or
+  vanishing); backups run with any options at strictly increasing dates (repozo names files by the
+  second); a `--quick` backup is covered only under the decidable hypothesis `QuickDetectable`,
+  which `quick_safe_when_prefix_kept` shows to hold whenever no pack happened since the last backup.
+
+  Trusted idealisations: MD5 collision-free (a checksum is the bytes), gzip is the identity.
+-/
+import Proofs.RepozoSpec
 namespace Props.C18
-open ZodbModel ZodbModel.Repozo
-theorem placeholder : concat [] = [] := rfl
+open ZodbModel ZodbModel.Repozo Proofs.Repozo
+
+/-- the backups the repository still holds, newest first: (date, committed bytes at that date) -/
+def held (s : St) : List (Nat × Bytes) := s.hist.filter (fun e => holds s.repo e.1)
+
+/-- the newest backup still held that is not later than `when` -/
+def heldAsOf (s : St) (when : Nat) : Option (Nat × Bytes) :=
+  (s.hist.filter (fun e => holds s.repo e.1 && decide (e.1 ≤ when))).head?
+
+/-- `hist` lists the backups newest first, so `heldAsOf` really is "the last backup not later
+    than `when` that the repository still holds". -/
+theorem hist_newest_first (s : St) (h : Reachable s) : s.hist.Pairwise (fun a b => b.1 < a.1) :=
+  hist_sorted h
+
+/-- **repo_inv** — inductive invariant of every reachable state: the chunks `find_files` selects
+    for "now" (the newest full backup and the incrementals since) concatenate to the committed
+    bytes of the source at the last backup held, the first of them is a full backup, and the
+    `.dat` next to it records exactly these chunks: consecutive ranges from 0, sizes and
+    checksums.  With no backup held there is nothing to select. -/
+theorem repo_inv (s : St) (h : Reachable s) (now : Nat) (hnow : s.last ≤ now) :
+    match (held s).head? with
+    | none => findFiles s.repo now = []
+    | some e => concat (findFiles s.repo now) = e.2 ∧
+        ∃ f0 rest, findFiles s.repo now = f0 :: rest ∧ f0.name.full = true ∧
+          getK f0.name.date s.repo.dats = some (datOf (findFiles s.repo now) 0) := by
+  have hs := reachable_sinv h
+  exact inv_now hs.inv (fun f hf => Nat.le_trans (hs.filesLe f hf) hnow)
+
+/-- **recover_is_snapshot** — for every date `when`, with or without `--with-verify`, whatever the
+    output location held before: `do_recover -D when -o out` fails with "no files" when no backup
+    not later than `when` is held; otherwise it leaves `out` = the committed bytes of the source
+    at the newest such backup, byte for byte, no `.part` file, and `out.index` = the index saved
+    from exactly these bytes. -/
+theorem recover_is_snapshot (s : St) (h : Reachable s) (when : Nat) (withVerify : Bool) (o : Out) :
+    doRecover s.repo when withVerify o =
+      match heldAsOf s when with
+      | none => (o, some .noFiles)
+      | some e => (⟨some e.2, none, some e.2⟩, none) := by
+  rw [doRecover_spec (reachable_sinv h).inv when withVerify o]
+  unfold heldAsOf retained
+  rw [← List.filter_filter, List.head?_filter]
+
+/-- the same for recovery to standard output -/
+theorem recover_stdout_is_snapshot (s : St) (h : Reachable s) (when : Nat) (withVerify : Bool) :
+    doRecoverStdout s.repo when withVerify =
+      match heldAsOf s when with
+      | none => ([], some .noFiles)
+      | some e => (e.2, none) := by
+  rw [doRecoverStdout_spec (reachable_sinv h).inv when withVerify]
+  unfold heldAsOf retained
+  rw [← List.filter_filter, List.head?_filter]
+
+/-- the newest backup is always held: a run that wrote a file is what `heldAsOf` returns for any
+    date from its own on, until the next run (so `-k` never removes the backup just taken). -/
+theorem backup_is_held (s : St) (h : Reachable s) (o : BOpts) (now : Nat) (hnow : s.last < now)
+    (hq : o.quick = true → QuickDetectable s.repo s.src now)
+    (hw : wroteFile (doBackup s.repo s.src o now).2 = true) (when : Nat) (hwhen : now ≤ when) :
+    heldAsOf (backupStep s o now) when = some (now, s.src.committed) := by
+  have hs := reachable_sinv h
+  have hlt : ∀ f ∈ s.repo.files, f.name.date < now := fun f hf => by
+    have := hs.filesLe f hf; omega
+  obtain ⟨r', out, heq, _, _, hnew, _, _⟩ := doBackup_spec hs.inv hlt hq
+  rw [heq] at hw
+  obtain ⟨f, hf, hfd⟩ := hnew hw
+  have hh : holds r' now = true := by
+    simp only [holds, List.any_eq_true, beq_iff_eq]; exact ⟨f, hf, hfd⟩
+  simp only [heldAsOf, backupStep, heq, hw, if_true]
+  rw [List.filter_cons_of_pos (by simp [hh, hwhen])]
+  rfl
+
+/-- **backup_only_complete_txns** — a backup run that writes a file makes the repository
+    reproduce exactly `committed`, the bytes up to the end of the last complete transaction:
+    whatever `tail` a transaction in progress has appended to the file, no byte of it is copied. -/
+theorem backup_only_complete_txns (s : St) (h : Reachable s) (o : BOpts) (now : Nat)
+    (hnow : s.last < now) (hq : o.quick = true → QuickDetectable s.repo s.src now)
+    (hw : wroteFile (doBackup s.repo s.src o now).2 = true) :
+    doRecoverStdout (backupStep s o now).repo now false = (s.src.committed, none) := by
+  rw [recover_stdout_is_snapshot _ (Reachable.backup o now h hnow hq),
+    backup_is_held s h o now hnow hq hw now (Nat.le_refl _)]
+
+/-- a backup run that writes nothing ("No changes") happens only when the whole source file —
+    hence its committed part when no transaction is in progress — equals what the repository
+    already reproduces: nothing committed is left out. -/
+theorem noop_loses_nothing (s : St) (h : Reachable s) (o : BOpts) (now : Nat)
+    (hnow : s.last < now) (hq : o.quick = true → QuickDetectable s.repo s.src now)
+    (hn : (doBackup s.repo s.src o now).2 = .noop) :
+    (doBackup s.repo s.src o now).1 = s.repo ∧ s.src.raw = concat (findFiles s.repo now) := by
+  have hs := reachable_sinv h
+  have hlt : ∀ f ∈ s.repo.files, f.name.date < now := fun f hf => by
+    have := hs.filesLe f hf; omega
+  obtain ⟨r', out, heq, _, _, _, hnoop, _⟩ := doBackup_spec hs.inv hlt hq
+  rw [heq] at hn ⊢
+  obtain ⟨h1, _, h3⟩ := hnoop hn
+  refine ⟨h1, ?_⟩
+  rw [h3, findFiles_now hs.inv (fun f hf => Nat.le_of_lt (hlt f hf)), concat_reverse_upToFull]
+
+/-- the quick mode's hypothesis holds whenever the state last backed up is still a prefix of the
+    file, i.e. when the source was only appended to since (no pack): then `--quick` needs no
+    assumption at all. -/
+theorem quick_safe_when_prefix_kept (s : St) (h : Reachable s) (now : Nat) (hnow : s.last ≤ now)
+    (hp : ∀ e, (held s).head? = some e → e.2 <+: s.src.raw) :
+    QuickDetectable s.repo s.src now := by
+  have hs := reachable_sinv h
+  exact quickDetectable_of_prefix hs.inv (fun f hf => Nat.le_trans (hs.filesLe f hf) hnow) hp
+
+/-- **verify_iff_intact** — let `r` be the repository of a reachable state after ANY damage to
+    its data files (files removed, contents changed; nothing added, `.dat` files untouched).
+    Full verification succeeds iff every data file of the repository is still present with its
+    recorded content; quick verification iff every one is present with its recorded size. -/
+theorem verify_iff_intact (s : St) (h : Reachable s) (hne : s.repo.files ≠ []) (r : Repo)
+    (hd : Damaged s.repo r) (now : Nat) (hnow : s.last ≤ now) :
+    (doVerify r false now = none ↔ ∀ f0 ∈ s.repo.files, f0 ∈ r.files) ∧
+    (doVerify r true now = none ↔
+      ∀ f0 ∈ s.repo.files, ∃ f ∈ r.files, f.name = f0.name ∧ f.content.length = f0.content.length) := by
+  have hs := reachable_sinv h
+  have hle : ∀ f ∈ s.repo.files, f.name.date ≤ now := fun f hf => Nat.le_trans (hs.filesLe f hf) hnow
+  constructor
+  · rw [verify_damaged_iff false hs.inv hne hd hle]
+    constructor
+    · intro hall f0 hf0
+      obtain ⟨f, hf, hn, _, hc⟩ := hall f0 hf0
+      have : f = f0 := by
+        cases f; cases f0
+        simp only at hn
+        have := hc rfl
+        simp only at this
+        subst hn; subst this; rfl
+      rw [← this]; exact hf
+    · intro hall f0 hf0
+      exact ⟨f0, hall f0 hf0, rfl, rfl, fun _ => rfl⟩
+  · rw [verify_damaged_iff true hs.inv hne hd hle]
+    constructor
+    · intro hall f0 hf0
+      obtain ⟨f, hf, hn, hl, _⟩ := hall f0 hf0
+      exact ⟨f, hf, hn, hl⟩
+    · intro hall f0 hf0
+      obtain ⟨f, hf, hn, hl⟩ := hall f0 hf0
+      exact ⟨f, hf, hn, hl, by simp⟩
+
+/-- both verifications succeed on the intact repository (once a backup exists) -/
+theorem verify_intact_ok (s : St) (h : Reachable s) (hne : s.repo.files ≠ []) (quick : Bool)
+    (now : Nat) (hnow : s.last ≤ now) : doVerify s.repo quick now = none := by
+  have hs := reachable_sinv h
+  have := verify_iff_intact s h hne s.repo (damaged_refl hs.inv) now hnow
+  cases quick with
+  | false => exact this.1.2 (fun f0 hf0 => hf0)
+  | true => exact this.2.2 (fun f0 hf0 => ⟨f0, hf0, rfl, rfl⟩)
+
+/-- **single_damage_detected** — for every data file `x` of the repository of a reachable state
+    (of the newest or of a superseded full backup alike): removing it makes full and quick
+    verification fail; replacing its content by any other bytes (a truncation, a flipped byte)
+    makes full verification fail, and quick verification too when the size changed. -/
+theorem single_damage_detected (s : St) (h : Reachable s) (x : DFile) (hx : x ∈ s.repo.files)
+    (now : Nat) (hnow : s.last ≤ now) :
+    (∀ quick, doVerify (delFile x.name s.repo) quick now ≠ none) ∧
+    (∀ c, c ≠ x.content → doVerify (setContent x.name c s.repo) false now ≠ none) ∧
+    (∀ c, c.length ≠ x.content.length → doVerify (setContent x.name c s.repo) true now ≠ none) := by
+  have hs := reachable_sinv h
+  have hne : s.repo.files ≠ [] := by intro e; rw [e] at hx; simp at hx
+  refine ⟨?_, ?_, ?_⟩
+  · intro quick hv
+    have hiff := verify_iff_intact s h hne _ (damaged_delFile hs.inv x.name) now hnow
+    cases quick with
+    | false => exact not_mem_delFile (hiff.1.1 hv x hx) rfl
+    | true =>
+      obtain ⟨f, hf, hn, _⟩ := hiff.2.1 hv x hx
+      exact not_mem_delFile hf hn
+  · intro c hc hv
+    have hiff := verify_iff_intact s h hne _ (damaged_setContent hs.inv x.name c) now hnow
+    exact hc (mem_setContent (hiff.1.1 hv x hx) rfl).symm
+  · intro c hc hv
+    have hiff := verify_iff_intact s h hne _ (damaged_setContent hs.inv x.name c) now hnow
+    obtain ⟨f, hf, hn, hl⟩ := hiff.2.1 hv x hx
+    rw [mem_setContent hf hn] at hl
+    exact hc hl
+
+/-! ### non-vacuity: a concrete history — full backup, commit, incremental taken while a
+    transaction is in progress, pack, full backup with `-k` — is reachable, recovers every date to
+    the right bytes, verifies, and detects damage.  (Dates 1, 2, 3; bytes are small numbers.) -/
+
+def o0 : BOpts := ⟨false, false, false, false⟩
+def oQz : BOpts := ⟨false, true, true, false⟩
+def ok_ : BOpts := ⟨false, false, false, true⟩
+
+def s1 : St := backupStep (St.init ⟨[1, 2, 3], []⟩) o0 1
+def s2 : St := backupStep { s1 with src := ⟨[1, 2, 3, 4, 5], [9, 9]⟩ } oQz 2
+def s3 : St := backupStep { s2 with src := ⟨[1, 3, 4, 5, 6], []⟩ } ok_ 3
+
+theorem s2_reachable : Reachable s2 :=
+  .backup oQz 2 (.evolve _ (.backup o0 1 (.init _) (by decide) (by decide))) (by decide) (by decide)
+
+theorem s3_reachable : Reachable s3 :=
+  .backup ok_ 3 (.evolve _ s2_reachable) (by decide) (by decide)
+
+example : s2.repo.files.map (fun f => (f.name.date, f.name.full, f.content)) =
+    [(2, false, [4, 5]), (1, true, [1, 2, 3])] := by decide
+example : (doRecover s2.repo 2 true ⟨some [7], none, some [8]⟩) =
+    (⟨some [1, 2, 3, 4, 5], none, some [1, 2, 3, 4, 5]⟩, none) := by decide
+example : (doRecover s2.repo 1 false ⟨none, none, none⟩).1.file = some [1, 2, 3] := by decide
+example : (doRecover s2.repo 0 false ⟨none, none, none⟩).2 = some .noFiles := by decide
+example : doVerify s2.repo false 5 = none ∧ doVerify s2.repo true 5 = none := by decide
+example : doVerify (setContent ⟨2, false, true⟩ [4, 6] s2.repo) false 5 = some .verifySum ∧
+    doVerify (setContent ⟨2, false, true⟩ [4, 6] s2.repo) true 5 = none ∧
+    doVerify (setContent ⟨1, true, false⟩ [1, 2] s2.repo) true 5 = some .verifySize ∧
+    doVerify (delFile ⟨1, true, false⟩ s2.repo) false 5 ≠ none := by decide
+-- after the pack the third run is a full backup and `-k` drops the first two
+example : s3.repo.files.map (fun f => (f.name.date, f.name.full)) = [(3, true)] := by decide
+example : heldAsOf s3 2 = none ∧ heldAsOf s3 3 = some (3, [1, 3, 4, 5, 6]) := by decide
+
+/-! ### the point excluded by `QuickDetectable`, exhibited on the model (and replayed on the real
+    code by `corpus/C18/quick-excluded-point.json`): a backup taken while a transaction is in
+    progress and nothing new is committed writes an EMPTY incremental; its range contains no byte,
+    so after a pack that leaves the file at least as long `--quick` sees "nothing changed before
+    the last chunk" and appends an incremental to the pre-pack full backup. -/
+
+def e1 : St := backupStep (St.init ⟨[1, 2, 3], []⟩) o0 1
+def e2 : St := backupStep { e1 with src := ⟨[1, 2, 3], [9]⟩ } o0 2          -- empty incremental
+def e3pre : St := { e2 with src := ⟨[7, 7, 7, 7], []⟩ }                      -- pack, then growth
+def e3 : St := backupStep e3pre ⟨false, true, false, false⟩ 3
+
+example : (e2.repo.files.map (fun f => (f.name.date, f.content))) = [(2, []), (1, [1, 2, 3])] := by
+  decide
+theorem quick_excluded_point :
+    ¬ QuickDetectable e3pre.repo e3pre.src 3 ∧
+    (doRecover e3.repo 3 false ⟨none, none, none⟩).1.file = some [1, 2, 3, 7] ∧
+    e3pre.src.committed = [7, 7, 7, 7] := by decide
+
 end Props.C18
